@@ -54,6 +54,30 @@ GOOD_SUB = [(T_ID, PAIRING_ID), (T_SIG, b"\x5a" * 64)]
 GOOD_SUB6 = [(T_ID, PAIRING_ID), (T_PK, LTPK), (T_SIG, b"\x5a" * 64)]
 
 
+COAP_CODES = ["CONTENT", "BAD_REQUEST", "UNAUTHORIZED", "NOT_FOUND", "INTERNAL_SERVER_ERROR"]   # besides 2.04 Changed
+PDU_FRAGS = [512, 23, 64, 9, 158]      # GATT read sizes the scripted accessory cuts its response PDUs at
+
+
+def ble_wrap(payload, shape="value"):
+    """HAP-BLE response body: the reply as the Value (1) parameter"""
+    if shape == "value+extra":
+        return ref_encode([(9, b"\x01"), (1, payload)])
+    if shape == "no-value":
+        return ref_encode([(9, b"\x01")])
+    return ref_encode([(1, payload)])
+
+
+def ble_pdus(tid, status, body, frag, short=False):
+    """response PDUs: control, tid, status, [len16, body...] then continuation PDUs (control|0x80, tid, body...)"""
+    if short and not body:
+        return [bytes([2, tid, status])]
+    n1 = max(frag - 5, 1)
+    out = [bytes([2, tid, status]) + len(body).to_bytes(2, "little") + body[:n1]]
+    rest, n = body[n1:], max(frag - 2, 1)
+    out += [bytes([0x82, tid]) + rest[i:i + n] for i in range(0, len(rest), n)]
+    return out
+
+
 def err_name(c):
     return "none" if c is None else ("empty" if c == b"" else c.hex())
 
@@ -242,10 +266,72 @@ def gen_items(x_pub):
     return cells
 
 
+def ble_plans(payload, err_pos, idx, with_too_many=False):
+    """exchange scripts by which a BLE accessory may deliver [payload]: name -> (exchanges, kind) with
+    kind 'faithful' (the dict handed over is the payload's), 'status' (a consumed PDU has a non-success status),
+    'other' (wrapper without Value, unknown status byte, too many fragments, truncated body)"""
+    w = ble_wrap
+    fd = lambda p: ref_encode([(12, p)])   # noqa: E731
+    fl = lambda p: ref_encode([(13, p)])   # noqa: E731
+    h = len(payload) // 2
+    plans = collections.OrderedDict()
+    plans["plain"] = ([(0, w(payload))], "faithful")
+    plans["last-only"] = ([(0, w(fl(payload)))], "faithful")
+    plans["two"] = ([(0, w(fd(payload[:h]))), (0, w(fl(payload[h:])))], "faithful")
+    if err_pos is not None:
+        cut = err_pos + 1
+        plans["cut-in-error"] = ([(0, w(fd(payload[:cut]))), (0, w(fl(payload[cut:])))], "faithful")
+    size = max(7, -(-len(payload) // 48))
+    pieces = [payload[i:i + size] for i in range(0, len(payload), size)] or [b""]
+    plans["many"] = ([(0, w(fd(p))) for p in pieces[:-1]] + [(0, w(fl(pieces[-1])))], "faithful")
+    plans["empty-piece"] = ([(0, w(fd(payload[:h]))), (0, w(fd(b""))), (0, w(fl(payload[h:])))], "faithful")
+    plans["value+extra"] = ([(0, w(payload, "value+extra"))], "faithful")
+    st = 1 + idx % 6
+    plans[f"status-{st}"] = ([(st, w(payload))], "status")
+    plans["status-short"] = ([(1 + (idx + 3) % 6, b"", True)], "status")
+    plans["status-second"] = ([(0, w(fd(payload[:h]))), (1 + (idx + 1) % 6, w(fl(payload[h:])))], "status")
+    plans["status-9"] = ([(9, w(payload))], "other")
+    plans["no-value"] = ([(0, w(payload, "no-value"))], "other")
+    plans["body-truncated"] = ([(0, w(payload)[:-1])], "other")
+    if with_too_many:
+        plans["too-many"] = ([(0, w(fd(payload[i:i + 1]))) for i in range(50)], "other")
+    return plans
+
+
+def gen_ble(tier, x_pub):
+    """BLE: the reply under test delivered through the real GATT/PDU/fragment stack in every plan of ble_plans"""
+    cells = []
+    full = tier != "quick"
+    idx = 0
+    for step in STEPS:
+        fv = field_variants(step, x_pub)
+        keep = ("pk384,salt16", "pk1,salt-", "proof-ok,enc", "proof-bad,enc-", "enc,valid", "enc,sig-bad", "pk32,enc,valid", "pk31,enc,valid")
+        picks = fv if full else [fv[0]] + [v for v in fv[1:] if v[0] in keep]
+        for (fname, fitems, fo) in picks:
+            for err in (ERR_CODES if full else [None, b"\x02", b"\x03", b"\x07", b"\x01", b""]):
+                for state in (states_for(step) if full else [None, bytes([EXP_STATE[step]]), bytes([EXP_STATE[step] ^ 1])]):
+                    for order in (["last"] if err is None else ["last", "first"]):
+                        items = lay_out(order, state, err, fitems)
+                        payload = ref_encode(items)
+                        err_pos = None
+                        if err is not None:
+                            err_pos = len(ref_encode(items[:[k for k, _ in items].index(T_ERROR)]))
+                        plans = ble_plans(payload, err_pos, idx, with_too_many=(fname == fv[0][0] and state == bytes([EXP_STATE[step]])))
+                        for pname, (xs, kind) in plans.items():
+                            idx += 1
+                            c = mk_cell("ble", step, "U", items, fo, fields=fname, order=f"{order}/{pname.split('-')[0] if pname.startswith('status-') and pname[7:].isdigit() else pname}")
+                            c["ble"] = dict(xs=xs, kind=kind, plan=pname, pdu_frag=PDU_FRAGS[idx % len(PDU_FRAGS)],
+                                            req_frag=[512, 20, 155][idx % 3])
+                            c["meta"]["pdu_frag"] = str(c["ble"]["pdu_frag"])
+                            c["meta"]["exchanges"] = str(min(len(xs), 10))
+                            cells.append(c)
+    return cells
+
+
 def gen_mutated(cells, r, n):
     """malformed stream: truncations / bit flips / duplications of replies of the other streams"""
     out = []
-    wire = [c for c in cells if c["t"] in "FU"]
+    wire = [c for c in cells if c["t"] in "FU" and not c.get("ble")]
     for _ in range(n):
         c = r.choice(wire)
         bs = bytearray(ref_encode(c["items"]))
@@ -378,19 +464,54 @@ class Env:
                 pass
         self.MemTransport = MemTransport
 
-        class FakeClient:
-            address = "00:00:00:00:00:00"
+        class FakeChar:
+            properties = ["read", "write"]
+            uuid = "0000004c-0000-1000-8000-0026bb765291"
+            handle = 1
 
-            async def get_characteristic(self, service, characteristic):
-                return 1
+        class FakeClient:
+            """scripted GATT peer under the REAL HAP-BLE stack (char_write -> ble_request -> _write_pdu/_read_pdu ->
+            decode_pdu/_continuation -> _decode_pdu_tlv_value): every request written starts a transaction whose
+            response PDUs (status, length, body cut at the cell's PDU fragment size) are served read by read"""
+            address = "00:00:00:00:00:00"
+            is_connected = True
+
+            def __init__(self):
+                self.tid = 0
+                self.pending = []
+                self.requests = []
+
+            async def get_characteristic(self, *a, **k):
+                return FakeChar()
 
             async def get_characteristic_iid(self, char):
                 return 1
-        self.FakeClient = FakeClient
 
-        async def fake_char_write(client, ek, dk, handle, iid, body):
-            return env.next_reply()
-        self.fake_char_write = fake_char_write
+            def determine_fragment_size(self, overhead, handle):
+                return env.req_frag
+
+            async def write_gatt_char(self, handle, data, response=True):
+                data = bytes(data)
+                if not data[0] & 0x80:
+                    self.tid = data[2]
+                    self.requests.append(data)
+                    self.pending = None                 # a new transaction: the response is produced at the first read
+
+            async def read_gatt_char(self, handle):
+                if self.pending is None:
+                    st, body, short = env.next_exchange()
+                    self.pending = ble_pdus(self.tid, st, body, env.pdu_frag, short)
+                return self.pending.pop(0)
+
+            async def disconnect(self):
+                return None
+        self.FakeClient = FakeClient
+        self.FakeChar = FakeChar
+        self.req_frag = 512
+        self.pdu_frag = 512
+        self.coap_code = "CHANGED"
+        self.final_xs = None
+        self.xq = []
 
     class ScriptDone(Exception):
         pass
@@ -419,9 +540,21 @@ class Env:
             self.disc.connection = conn
         return conn
 
-    def begin(self, prelude, final, prelude_ora, cell_ora, status=200):
+    def next_exchange(self):
+        """BLE: the next GATT transaction's (status, body, short-pdu) - prelude replies are one successful exchange
+        wrapping the reply, the reply under test is the cell's explicit exchange script"""
+        if not self.xq:
+            logical = self.next_reply()
+            if self.fed > self.n_pre and self.final_xs is not None:
+                self.xq = [tuple(x) + (False,) * (3 - len(x)) for x in self.final_xs]
+            else:
+                self.xq = [(0, ble_wrap(logical), False)]
+        return self.xq.pop(0)
+
+    def begin(self, prelude, final, prelude_ora, cell_ora, status=200, xs=None, pdu_frag=512, req_frag=512):
         """script the accessory: good prelude replies (answered with all-valid oracles), then the reply under test"""
         self.final_status = status
+        self.final_xs, self.pdu_frag, self.req_frag, self.xq = xs, pdu_frag, req_frag, []
         self.rewire()
         self.script = list(prelude) + ([final] if final is not None else [])
         self.n_pre = len(prelude)
@@ -448,6 +581,8 @@ class Env:
     def classify(self, e):
         if type(e) is self.TlvParseException:
             return "err Parse"
+        if type(e) is self.bc.PDUStatusError:
+            return "err PduStatus"
         n = type(e).__name__
         if n in LIB_CLASSES and type(e).__module__ == "aiohomekit.exceptions":
             return "err " + LIB_CLASSES[n]
@@ -496,7 +631,12 @@ class Env:
         reply = cell_reply(c) if t != "L" else None
         self.sig_key = "m6sig" if step == "S6" else "v2sig"
         sm, prelude = self.make_sm(step, o)
-        self.begin(prelude, reply, self.preludes(step, o), o, c.get("status", 200))
+        ble = c.get("ble") or {}
+        if t == "U" and reply is None:
+            reply = b""
+        self.begin(prelude, reply, self.preludes(step, o), o, c.get("status", 200),
+                   xs=ble.get("xs"), pdu_frag=ble.get("pdu_frag", PDU_FRAGS[len(reply or b"") % len(PDU_FRAGS)]),
+                   req_frag=ble.get("req_frag", 512))
         n_pre = self.n_pre
         try:
             if t == "U":
@@ -520,7 +660,7 @@ class Env:
             return "ok cont"
         except Exception as e:  # noqa
             if self.fed <= n_pre and n_pre:
-                raise RuntimeError(f"prelude failed: {type(e).__name__}: {e}")
+                return "crash prelude-failed-" + type(e).__name__     # the all-valid earlier replies were not accepted
             return self.classify(e)
 
     # ---- call level: the library's own drivers of the state machines
@@ -539,14 +679,20 @@ class Env:
             def __init__(self, controller, pairing):
                 self.pairing = pairing
 
+        from aiocoap.numbers.codes import Code
+
         class Resp:
-            def __init__(self, payload):
+            def __init__(self, payload, code):
                 self.payload = payload
+                self.code = code
 
         class Req:
             def __init__(self):
                 async def resp():
-                    return Resp(env.next_reply())
+                    body = env.next_reply()
+                    # prelude replies 2.04; the reply under test carries the cell's CoAP response code
+                    code = Code.CHANGED if env.fed <= env.n_pre else getattr(Code, env.coap_code)
+                    return Resp(body, code)
                 self.response = resp()
 
         class FakeCtx:
@@ -602,6 +748,7 @@ class Env:
         self.sig_key = "m6sig" if step == "S6" else "v2sig"
         prelude = {"S2": [], "S4": [GOOD_M2], "S6": [GOOD_M2, GOOD_M4], "V2": [], "V4": [self.good_m2]}[step]
         self.begin(prelude, reply, self.preludes(step, o), o, c.get("status", 200))
+        self.coap_code = c.get("coap_code", "CHANGED")
         n_pre = self.n_pre
         try:
             if level == "ip" and step in ("S2", "S4", "S6"):
@@ -634,7 +781,7 @@ class Env:
             return "ok cont" if self.fed == n_pre + 1 else "crash prelude-incomplete"
         except Exception as e:  # noqa
             if self.fed <= n_pre and n_pre:
-                raise RuntimeError(f"prelude failed: {type(e).__name__}: {e}")
+                return "crash prelude-failed-" + type(e).__name__     # the all-valid earlier replies were not accepted
             return self.classify(e)
 
     # ---- pairing management on the real pairing classes
@@ -670,7 +817,9 @@ class Env:
                 return self
 
             def __getitem__(self, k):
-                return "char"
+                import types
+                return types.SimpleNamespace(service=types.SimpleNamespace(type="00000055-0000-1000-8000-0026BB765291"),
+                                             type="00000050-0000-1000-8000-0026BB765291", iid=7)
 
         class St:
             accessories = Acc()
@@ -686,13 +835,18 @@ class Env:
         b.device = None
         b.id = "aa"
 
-        async def req(opcode, char, data, iid=None):
-            return env.next_reply()
-        b._async_request = req
+        # the real _async_request / _async_request_under_lock / ble_request run on the scripted GATT peer
+        b._ble_request_lock = asyncio.Lock()
+        b.client = env.FakeClient()
+        b._encryption_key = None
+        b._decryption_key = None
+        b._close_while_locked = noop
+        b.ble_advertisement = None
         return b
 
-    async def run_mgmt(self, op, reply, status=200):
-        self.begin([], reply, default_oracles(), default_oracles(), status)
+    async def run_mgmt(self, op, reply, status=200, bst=0, short=False):
+        self.begin([], reply, default_oracles(), default_oracles(), status,
+                   xs=[(bst, reply, short)] if op.startswith("ble") else None, pdu_frag=PDU_FRAGS[len(reply) % len(PDU_FRAGS)])
         try:
             if op == "ipadd":
                 r = await self.ip.add_pairing("ctl-2", "00" * 32, "User")
@@ -719,7 +873,13 @@ def o_tokens(o):
                      opt(o["rplain"]), opt(o["v2plain"]), str(int(o["v2sig"])), hx(o["pid"])])
 
 
+def xs_tokens(xs):
+    return " ".join(f"{x[0]}:{hx(x[1])}" for x in xs)
+
+
 def model_line(c):
+    if c.get("ble"):
+        return f"bstep {c['step']} {o_tokens(c['o'])} {xs_tokens(c['ble']['xs'])}"
     if c["t"] == "L":
         toks = " ".join(f"{k}:{hx(v)}" for k, v in c["items"])
         return f"sitems {c['step']} {o_tokens(c['o'])} {toks}".rstrip()
@@ -766,6 +926,21 @@ def judge(step_or_op, items, transport, impl, mgmt=False):
             allowed.add(REF_CLASS.get(c, "Invalid"))
     if got not in allowed:
         return (cat, "wrong-class", f"raised {got}, documented: {' or '.join(sorted(allowed))}")
+    return None
+
+
+def judge_delivery(kind, what, step_or_op, items, impl, mgmt=False):
+    """BLE cells whose delivery is not plain: a consumed PDU with a non-success status must fail the operation with
+    PDUStatusError; otherwise (wrapper without Value, ...) only 'a bad reply never succeeds' is demanded"""
+    if kind == "status":
+        if impl.startswith("ok"):
+            return ("direct", "pdu-status-ignored", f"{what} yet completed as success ({impl[:30]})")
+        if impl != "err PduStatus":
+            return ("direct", "pdu-status-wrong-exception", f"{what} but failed with {impl[:40]} instead of PDUStatusError")
+        return None
+    v = judge(step_or_op, items, "U", impl, mgmt=mgmt)
+    if v is not None and v[1] == "success":
+        return v
     return None
 
 
@@ -891,7 +1066,7 @@ async def run_real_verify(env, drv, cov, add_violation, record):
 
 # ---------------------------------------------------------------- kernel cross-check of the extraction
 ECODES = ["Authentication", "Backoff", "MaxPeers", "MaxTries", "Unavailable", "Busy", "Invalid", "Unknown", "IllegalData",
-          "InvalidAuthTag", "IncorrectPairingId", "InvalidSignature", "Parse"]
+          "InvalidAuthTag", "IncorrectPairingId", "InvalidSignature", "Parse", "PduStatus"]
 OKCODES = {"saltkey": 100, "cont": 101, "pairing": 102, "resumed": 103, "keys": 104, "done": 105}
 COQ_STEP = {"S2": "SetupM2", "S4": "SetupM4", "S6": "SetupM6", "V2": "VerifyM2", "V4": "VerifyM4"}
 COQ_OP = {"ipadd": "IpAdd", "iprem": "IpRemove", "bleadd": "BleAdd", "blerem": "BleRemove"}
@@ -930,17 +1105,21 @@ def kernel_crosscheck(verif, step_cases, mgmt_cases):
                    coq_bool(o["srp"]), coq_opt(o["m6plain"]), coq_bool(o["m6sig"]), coq_bool(o["derive"]), coq_opt(o["rplain"]),
                    coq_opt(o["v2plain"]), coq_bool(o["v2sig"]), coq_bytes(o["pid"])))
         tr = "Filtered" if c["t"] == "F" else "Unfiltered"
+        if c.get("ble"):
+            xs = "[" + ";".join(f"({x[0]}, {coq_bytes(x[1])})" for x in c["ble"]["xs"]) + "]"
+            rows.append(f"(ocode (step_ble {COQ_STEP[c['step']]} {orc} {xs}), {out_code(ans)})")
+            continue
         rows.append(f"(ocode (step_wire {tr} {COQ_STEP[c['step']]} {orc} {coq_bytes(cell_reply(c))}), {out_code(ans)})")
     for op, reply, ans in mgmt_cases:
         rows.append(f"(mcode (mgmt_wire {COQ_OP[op]} {coq_bytes(reply)}), {out_code(ans)})")
     body = """From Coq Require Import List NArith Bool.
-From AHK Require Import Lib.Res Lib.ByteStr Model.Tlv Model.Steps.
+From AHK Require Import Lib.Res Lib.ByteStr Model.Tlv Model.Steps Model.StepsBle.
 Import ListNotations.
 Open Scope N_scope.
 Definition ecode (e : errclass) : N :=
   match e with EAuthentication => 1 | EBackoff => 2 | EMaxPeers => 3 | EMaxTries => 4 | EUnavailable => 5 | EBusy => 6
   | EInvalid => 7 | EUnknown => 8 | EIllegalData => 9 | EInvalidAuthTag => 10 | EIncorrectPairingId => 11
-  | EInvalidSignature => 12 | EParse => 13 end.
+  | EInvalidSignature => 12 | EParse => 13 | EPduStatus => 14 end.
 Definition ocode (r : outcome) : N :=
   match r with Ok (PSaltKey _ _) => 100 | Ok PContinue => 101 | Ok (PPairing _ _) => 102 | Ok PResumed => 103 | Ok PKeys => 104
   | Err e => ecode e | Crash => 200 | OutOfFuel => 201 end.
@@ -960,6 +1139,8 @@ Eval vm_compute in (N.of_nat (length (filter (fun c => negb (N.eqb (fst c) (snd 
 # ---------------------------------------------------------------- run
 def run(ctx):
     tier, seed = ctx["tier"], ctx["seed"]
+    import logging
+    logging.getLogger("aiohomekit").setLevel(logging.ERROR)      # the PDU layer warns about every non-success status
     drv = Driver(ctx["driver"])
     cov = Coverage("distinct (stream, step/op, transport, reply bytes, oracle record) whose reply was decoded and "
                    "reached the state check of the generator / pairing method (or raised in the decoding glue)")
@@ -992,7 +1173,11 @@ def run(ctx):
         if items is not None:
             jc = dict(cell)
             jc["items"] = items
-            verdict = judge(cell["step"], items, cell["t"], impl, mgmt=mg)
+            kind = (cell.get("ble") or {}).get("kind", "faithful")
+            if kind == "faithful":
+                verdict = judge(cell["step"], items, cell["t"], impl, mgmt=mg)
+            else:
+                verdict = judge_delivery(kind, "PDU status " + "/".join(str(x[0]) for x in cell["ble"]["xs"]), cell["step"], items, impl, mgmt=mg)
             exp = 2 if mg else EXP_STATE[cell["step"]]
             if any(k == T_ERROR for k, _ in items) or state_kind(items, exp) == "state-wrong":
                 for cat in ("direct", "unexpected-type-before-error"):
@@ -1016,25 +1201,23 @@ def run(ctx):
                  stream=cell["stream"], step=cell["step"], transport=cell["t"], result=canon(impl).split(" ")[0] + " " + (impl.split(" ")[1] if impl.startswith("err") else ""),
                  error_code=("n/a" if items is None else err_name(next((v for k, v in items if k == T_ERROR), None))),
                  state=("n/a" if items is None else state_kind(items, 2 if mg else EXP_STATE[cell["step"]])),
-                 layout=cell["meta"]["order"])
+                 layout=cell["meta"]["order"], ble_pdu_frag=cell["meta"].get("pdu_frag", "-"),
+                 ble_exchanges=cell["meta"].get("exchanges", "-"), coap_code=cell["meta"].get("coap_code", "-"))
 
     # ---- the generator streams (fake crypto)
-    cells = gen_main(tier, x_pub) + gen_extra(x_pub) + gen_resume(x_pub) + gen_items(x_pub)
+    cells = gen_main(tier, x_pub) + gen_extra(x_pub) + gen_resume(x_pub) + gen_items(x_pub) + gen_ble(tier, x_pub)
     n_mut = 3000 if tier == "quick" else 60000
     cells += gen_mutated(cells, rng(seed, "c04mut"), n_mut)
     step_models = drv.batch([model_line(c) for c in cells])
 
     async def all_steps():
         out = []
-        orig_cw = env.bc.char_write
-        env.bc.char_write = env.fake_char_write
         env.fake_crypto(True)
         try:
             for c in cells:
                 out.append(await env.run_step(c))
         finally:
             env.fake_crypto(False)
-            env.bc.char_write = orig_cw
         return out
     impls = asyncio.run(all_steps())
     for c, i, m in zip(cells, impls, step_models):
@@ -1059,8 +1242,10 @@ def run(ctx):
                             if level == "ip":
                                 call_cells.extend(with_status(cc_, st) for st in statuses_for(tier))
                             else:
-                                cc_["meta"]["status"] = "-"
-                                call_cells.append(cc_)
+                                for code in (["CHANGED", COAP_CODES[len(call_cells) % len(COAP_CODES)]] if not full else ["CHANGED"] + COAP_CODES):
+                                    cx = dict(cc_, meta=dict(cc_["meta"], status="-", coap_code=code))
+                                    cx["coap_code"] = code
+                                    call_cells.append(cx)
     call_models = drv.batch([model_line(c) for c in call_cells])
 
     async def all_calls():
@@ -1081,12 +1266,7 @@ def run(ctx):
 
     # ---- pair-verify with real cryptography
     async def real_stream():
-        orig_cw = env.bc.char_write
-        env.bc.char_write = env.fake_char_write
-        try:
-            await run_real_verify(env, drv, cov, None, record)
-        finally:
-            env.bc.char_write = orig_cw
+        await run_real_verify(env, drv, cov, None, record)
     asyncio.run(real_stream())
 
     # ---- pairing management: IpPairing / BlePairing add_pairing / remove_pairing
@@ -1107,13 +1287,27 @@ def run(ctx):
                             if op.startswith("ip"):
                                 mg_cells.extend(with_status(mc, st) for st in statuses_for(tier))
                             else:
+                                mc["bst"] = 0
                                 mg_cells.append(mc)
+                                _rot[0] += 1
+                                if tier != "quick" or _rot[0] % 4 == 0:
+                                    for bst, short in ((1 + _rot[0] % 6, False), (1 + (_rot[0] + 2) % 6, True), (9, False)):
+                                        if bst == 9 and _rot[0] % 5:
+                                            continue
+                                        ms = dict(mc, meta=dict(mc["meta"], order=mc["meta"]["order"] + ("/status-short" if short else "/status")))
+                                        ms["bst"], ms["short"] = bst, short
+                                        ms["ble"] = dict(kind="status" if bst <= 6 else "other", xs=[(bst, b"")])
+                                        mg_cells.append(ms)
     wire = []
     for c in mg_cells:
         inner = ref_encode(c["items"])
         if c["step"].startswith("ble"):
             inner = ref_encode([(1, inner)]) if inner else bytes([1, 0])
+        if c.get("short"):
+            inner = b""
         c["raw_reply"] = inner
+        if c.get("ble"):
+            c["ble"]["xs"] = [(c["bst"], inner)]
         wire.append(inner)
     # BLE wrapper shapes + malformed
     r = rng(seed, "c04mg")
@@ -1142,24 +1336,26 @@ def run(ctx):
     for c in mg_cells:
         c["raw"] = c["raw_reply"]
     all_mg = mg_cells + odd
-    models = drv.batch([f"mgmt {c['step']} {hx(c['raw'])}" for c in all_mg])
+    models = drv.batch([f"bmgmt {c['step']} {c.get('bst', 0)}:{hx(c['raw'])}" if c["step"].startswith("ble")
+                        else f"mgmt {c['step']} {hx(c['raw'])}" for c in all_mg])
 
     async def all_mgmt():
         env.ble = env.make_ble_pairing()
-        return [await env.run_mgmt(c["step"], c["raw"], c.get("status", 200)) for c in all_mg]
+        return [await env.run_mgmt(c["step"], c["raw"], c.get("status", 200), c.get("bst", 0), c.get("short", False)) for c in all_mg]
     impls = asyncio.run(all_mgmt())
     for c, i, m in zip(all_mg, impls, models):
         record(c, i, m)
 
     # ---- vm_compute cross-check of the extracted model on a sample
     rs = rng(seed, "c04vm")
-    wire_idx = [i for i, c in enumerate(cells) if c["t"] in "FU"]
+    wire_idx = [i for i, c in enumerate(cells) if c["t"] in "FU" and not c.get("ble")]
     pick = rs.sample(wire_idx, 90 if tier == "quick" else 700)
-    mg_pick = rs.sample(range(len(all_mg)), 40 if tier == "quick" else 300)
+    mg_pick = rs.sample([i for i, c in enumerate(all_mg) if not c.get("bst")], 40 if tier == "quick" else 300)
+    ble_pick = rs.sample([i for i, c in enumerate(cells) if c.get("ble")], 40 if tier == "quick" else 300)
     try:
-        bad = kernel_crosscheck(ctx["verif"], [(cells[i], step_models[i]) for i in pick],
+        bad = kernel_crosscheck(ctx["verif"], [(cells[i], step_models[i]) for i in pick + ble_pick],
                                 [(all_mg[i]["step"], all_mg[i]["raw"], models[i]) for i in mg_pick])
-        cov.extra["vm_compute_crosscheck"] = dict(cases=len(pick) + len(mg_pick), disagreements=bad)
+        cov.extra["vm_compute_crosscheck"] = dict(cases=len(pick) + len(ble_pick) + len(mg_pick), disagreements=bad)
         if bad:
             mismatches.append((dict(stream="vm_compute", step="extraction", t="-", items=[], o=default_oracles(), meta={}),
                                f"{bad} answers of the extracted driver", "differ from vm_compute"))
@@ -1217,6 +1413,12 @@ def run(ctx):
         orders = sorted({x[0]["meta"]["order"] for x in lst})
         name = STEP_NAME.get(step, step)
         http = "" if c["meta"].get("status", "-") == "-" else f", HTTP status {c['meta']['status']}"
+        if c["meta"].get("coap_code", "-") not in ("-", "CHANGED"):
+            http += f", CoAP code {c['meta']['coap_code']}"
+        if c["t"] == "U" and not c.get("ble"):
+            http += f", response PDUs of {PDU_FRAGS[len(cell_reply(c)) % len(PDU_FRAGS)]} bytes"
+        if c.get("ble") and c["ble"].get("plan"):
+            http += f", BLE delivery {c['ble']['plan']}, response PDUs of {c['ble']['pdu_frag']} bytes"
         what = (f"{name}: reply {[(k, hx(v)[:16]) for k, v in (c['items'] or [])]} "
                 f"({sk}, {ek}, transport {c['t']}{http}) {verdict[2]}; {len(lst)} cells of this class fail")
         viols.append(violation(key, what, True, stream=c["stream"], step=step, transport=c["t"],
@@ -1224,6 +1426,9 @@ def run(ctx):
                                items=[(k, hx(v)) for k, v in (c["items"] or [])], oracles={k: (hx(v) if isinstance(v, bytes) else v) for k, v in c["o"].items()},
                                impl=impl, model=model, expected=verdict[2], failing_cells=len(lst),
                                transports=ts, layouts=orders[:8], http_status=c["meta"].get("status", "-"),
+                               coap_code=c["meta"].get("coap_code", "-"),
+                               ble_exchanges=[(x[0], hx(x[1])) for x in c["ble"]["xs"]] if c.get("ble") else None,
+                               ble_pdu_frag=(c.get("ble") or {}).get("pdu_frag"),
                                http_statuses=sorted({x[0]["meta"].get("status", "-") for x in lst})))
     for c, got, want in tbl_bad[:3]:
         viols.append(violation(f"error_handler/code-{c.hex() or 'empty'}", f"error_handler({c.hex()}) gives {got}, documented {want}", True,
